@@ -67,6 +67,39 @@ Section Gradient.
     end.
 End Gradient.
 
+(* SVGLinearGradient / SVGRadialGradient.from_element: defaults, percentages relative to the viewBox
+   (userSpaceOnUse) or to the unit square (objectBoundingBox), r and fr relative to the normalised
+   diagonal, fx / fy defaulting to cx / cy.  `get` reads an attribute; the transform is parsed elsewhere. *)
+Section FromElement.
+  Context {N : NumOps} (MO : MathOps N).
+  Definition from_element (radial : bool) (get : string -> option string) (vbw vbh : T N) (tf : @Affine2D N) : result (@grad N) :=
+    let units := match get "gradientUnits" with Some u => u | None => "objectBoundingBox" end in
+    let scale := if units =? "userSpaceOnUse" then Some (vbw, vbh, false)
+                 else if units =? "objectBoundingBox" then Some (one N, one N, true) else None in
+    match scale with
+    | None => Err EValue
+    | Some (w, h, bb) =>
+        let diag := div N (m_hypot MO w h) (m_sqrt MO (of_Z N 2%Z)) in
+        let num (k dflt : string) (sc : T N) := number_or_percentage (match get k with Some v => v | None => dflt end) sc in
+        if radial then
+          match num "cx" "50%" w, num "cy" "50%" h, num "r" "50%" diag, num "fr" "0%" diag with
+          | Some cx, Some cy, Some r, Some fr =>
+              let fx := match get "fx" with Some v => number_or_percentage v w | None => Some cx end in
+              let fy := match get "fy" with Some v => number_or_percentage v h | None => Some cy end in
+              match fx, fy with
+              | Some fx, Some fy => Ok (mk_grad true (cx, cy) (fx, fy) r fr tf bb)
+              | _, _ => Err EValue
+              end
+          | _, _, _, _ => Err EValue
+          end
+        else
+          match num "x1" "0%" w, num "y1" "0%" h, num "x2" "100%" w, num "y2" "0%" h with
+          | Some x1, Some y1, Some x2, Some y2 => Ok (mk_grad false (x1, y1) (x2, y2) (zero N) (zero N) tf bb)
+          | _, _, _, _ => Err EValue
+          end
+    end.
+End FromElement.
+
 (* _apply_gradient_template on attribute maps: own attributes win, missing ones come from the
    (already resolved) template, for the fields of the gradient's own class; stops likewise *)
 Definition tmap := list (string * string).
